@@ -121,6 +121,14 @@ def check(repo: Repo, run: Run) -> None:
     ad = repo.mod("adapter")
     j2c = ad.func("json_to_cel")
     param = j2c.args.args[0].arg
+    # J5: json_to_cel builds every scalar through the celtypes constructors; a constructor that takes a falsy source for
+    # an absent one loses -0.0 (and false, 0, "") on the way in (rule shared with C10.R7)
+    from .c10 import check_absent_vs_falsy
+
+    # J6: navigation `.field` / ["key"] reaches the stored element whatever its value: presence is decided by
+    # membership, so a JSON null / false / 0 / "" member is found (instances shared with C09.K5)
+    run.borrow(repo, "C09", "C15.J6", lambda o: o["rule"] == "C09.K5", 2)
+    run.floor("C15.J5", check_absent_vs_falsy(repo, run, "C15.J5", ("BoolType", "IntType", "DoubleType", "StringType")), 4)
     # J1 -----------------------------------------------------------------
     targets = [("json_to_cel", j2c, param)]
     enc = ad.cls("CELJSONEncoder")
